@@ -941,7 +941,25 @@ class Gen:
                             if not k: continue
                         if pat_store.match(bt) and k == 1: uses += 1
                         else: ok = False; break
-                    if ok and uses >= 1: fg.rawmove.add(nm)
+                    if ok and uses >= 1:
+                        # a value loaded from a genuine i64/double *field* (address formed by getelementptr / a parameter, not by a
+                        # type-punning bitcast) and stored to such fields is an integer: keep it integer-typed. Measured: an integer
+                        # option copied through a void* temporary became (uint64_t)(void*)1, which CBMC does not fold, and every
+                        # comparison against it turned into a symbolic branch (batch processor Export).
+                        def punned(addr):
+                            for bt2 in body_text:
+                                if bt2.startswith(addr + ' = '):
+                                    return bt2.startswith(addr + ' = bitcast') or ' = phi ' in bt2[:len(addr) + 8] or bt2.startswith(addr + ' = select') or bt2.startswith(addr + ' = load') or bt2.startswith(addr + ' = inttoptr') or bt2.startswith(addr + ' = call')
+                            return False      # parameter or global: typed as declared
+                        addrs = []
+                        m0 = re.search(r'= load (?:i64|double) , (?:i64|double) ?\* (%(?:"[^"]*"|[\w.\-]+))', ' '.join(x[1] for x in toks))
+                        if m0: addrs.append(m0.group(1))
+                        for bt in body_text:
+                            if pat_store.match(bt):
+                                m1 = re.search(r', (?:i64|double) ?\* (%(?:"[^"]*"|[\w.\-]+))', bt)
+                                if m1: addrs.append(m1.group(1))
+                        if not addrs or any(punned(a_) for a_ in addrs) or self.opts.__dict__.get('raw_all'):
+                            fg.rawmove.add(nm)
         # pass B: emit -- blocks in reverse post-order of the CFG, so that the only backward gotos of the generated C are
         # real loop back edges (LLVM's textual order may put a latch/continue block in the middle of the loop body; every
         # later jump to it is then a backward goto, which CBMC unwinds as an additional nested loop and whose unwinding
